@@ -13,6 +13,7 @@ import (
 	"fmt"
 	"io"
 	"strings"
+	"unicode/utf8"
 )
 
 var _ = bytes.Equal
@@ -58,21 +59,21 @@ func iteByte(c bool, a, b byte) byte {
 }
 
 // Abstract stream state of an io.Reader / io.Writer (uninterpreted in the VCs).
-func inPos(r io.Reader) int                  { return 0 }
-func inEnd(r io.Reader) int                  { return 0 }
-func inByte(r io.Reader, i int) byte         { return 0 }
-func inErr(r io.Reader) error                { return nil }
-func outLen(w io.Writer) int                 { return 0 }
-func outCalls(w io.Writer) int               { return 0 }
-func outByte(w io.Writer, i int) byte        { return 0 }
-func sameBase(a, b []byte) bool              { return false }
-func offOf(a []byte) int                     { return 0 }
-func rangeIdx() int                          { return 0 }
-func dynTypeIs(x interface{}, t string) bool { return false }
-func fresh(b []byte) bool                    { return false }
-func freshStr(s string) bool                 { return false }
-func strViewOf(s string, b []byte) bool      { return false }
-func validUTF8(s string) bool                { return false }
+func inPos(r io.Reader) int                  { panic("ghost: inPos is not executable") }
+func inEnd(r io.Reader) int                  { panic("ghost: inEnd is not executable") }
+func inByte(r io.Reader, i int) byte         { panic("ghost: inByte is not executable") }
+func inErr(r io.Reader) error                { panic("ghost: inErr is not executable") }
+func outLen(w io.Writer) int                 { panic("ghost: outLen is not executable") }
+func outCalls(w io.Writer) int               { panic("ghost: outCalls is not executable") }
+func outByte(w io.Writer, i int) byte        { panic("ghost: outByte is not executable") }
+func sameBase(a, b []byte) bool              { panic("ghost: sameBase is not executable") }
+func offOf(a []byte) int                     { panic("ghost: offOf is not executable") }
+func rangeIdx() int                          { panic("ghost: rangeIdx is not executable") }
+func dynTypeIs(x interface{}, t string) bool { return fmt.Sprintf("%T", x) == t }
+func fresh(b []byte) bool                    { panic("ghost: fresh is not executable") }
+func freshStr(s string) bool                 { panic("ghost: freshStr is not executable") }
+func strViewOf(s string, b []byte) bool      { panic("ghost: strViewOf is not executable") }
+func validUTF8(s string) bool                { return utf8.ValidString(s) }
 
 // ---------------------------------------------------------------------------
 // Specification functions (RFC 6455 §5.2), written from the RFC text.
@@ -434,7 +435,9 @@ func sameHdrExceptMask(a, b Header) bool {
 	return a.Fin == b.Fin && a.Rsv == b.Rsv && a.OpCode == b.OpCode && a.Length == b.Length
 }
 
-func sameSlice(a, b []byte) bool { return false }
+func sameSlice(a, b []byte) bool {
+	return len(a) == len(b) && (a == nil) == (b == nil) && (len(a) == 0 || &a[0] == &b[0])
+}
 
 //@ func MaskFrameInPlaceWith
 //@   props C02 C06
